@@ -24,14 +24,15 @@ ASSUMPTIONS = ["argparse is the command-line parser", "keys are identifiers that
 KEYS = ["a", "b_c", "port"]
 CMD_VALUE = {"Int": ("7", 7), "Str": ("hello", "hello"), "Float": ("2.5", 2.5), "Include": ("inc.cfg", "inc.cfg"),
              # an empty value is a value; string fields with choices normalise what the user typed before judging it
-             "Number": ("8", 8), "StrEmpty": ("", ""), "Level": ("DEBUG", "debug"), "Mode": (" Production ", "production"), "Choice": (" B ", "b")}
-ASSIGN = {"Int": 3, "Str": "s", "Float": 1.25, "Bool": None, "List": [2], "Include": "inc2.cfg", "Number": 4, "StrEmpty": "s", "Level": "error", "Mode": "development",
+             "Number": ("8", 8), "Limit": ("50", 50), "Bounded": ("5", 5), "StrEmpty": ("", ""), "Level": ("DEBUG", "debug"), "Mode": (" Production ", "production"), "Choice": (" B ", "b")}
+ASSIGN = {"Int": 3, "Str": "s", "Float": 1.25, "Bool": None, "List": [2], "Include": "inc2.cfg", "Number": 4, "Limit": 40, "Bounded": 3, "StrEmpty": "s", "Level": "error", "Mode": "development",
           "Choice": "a"}
 # schemas holding an include field (a persistent string-valued scalar like any other file name field)
 INCLUDE_SPECS = [[["a", "Include"]], [["a", "Int"], ["b_c", "Include"]], [["a", [["a", "Include"]]]],
                  [["a", [["a", "Int"], ["b_c", "Include"]]], ["b_c", "Bool"]], [["a", [["a", [["a", "Include"]]], ["b_c", "Bool"]]]]]
 ENV_OPTS = [False, True, "C16PFX", None]
-VALUE_SPECS = [[["a", "Number"]], [["a", [["a", "Number"], ["b_c", "Bool"]]]], [["a", "StrEmpty"]], [["a", "Level"], ["b_c", "Mode"]], [["a", [["a", "Choice"], ["b_c", "StrEmpty"]]], ["b_c", "Level"]],
+VALUE_SPECS = [[["a", "Limit"], ["b_c", "Bounded"]], [["a", [["a", "Limit"], ["b_c", "Bounded"]]], ["b_c", "Str"]], [["b_c", [["a", [["a", "Limit"], ["b_c", "Bounded"]]]]]],
+               [["a", "Number"]], [["a", [["a", "Number"], ["b_c", "Bool"]]]], [["a", "StrEmpty"]], [["a", "Level"], ["b_c", "Mode"]], [["a", [["a", "Choice"], ["b_c", "StrEmpty"]]], ["b_c", "Level"]],
                [["a", [["a", [["a", "Mode"]]], ["b_c", "Int"]]], ["port", "Choice"]]]
 
 
@@ -111,6 +112,11 @@ def _fill(s, spec, ctr, explicit=None):
             _fill(getattr(s, key), kind, ctr)
         elif kind == "Include":
             setattr(s, key, cc.IncludeField())
+        elif kind == "Limit":
+            setattr(s, key, cc.IntField(default=10))
+        elif kind == "Bounded":
+            # validated against a sibling of its own (sub-)configuration: the key "a" next to it
+            setattr(s, key, cc.IntField(default=1, validator=_bounded))
         elif kind == "Number":
             setattr(s, key, cc.NumberField(int, default=1))           # the generic number class, not one of its named subclasses
         elif kind == "StrEmpty":
@@ -132,6 +138,12 @@ def _fill(s, spec, ctr, explicit=None):
             setattr(s, key, cc.BoolField(default=bool(ctr[0] % 2)))
         elif kind == "List":
             setattr(s, key, cc.ListField(cc.IntField(), default=[1]))
+
+
+def _bounded(cfg, value):
+    if value > cfg.a:
+        raise ValueError("must not exceed the limit %r" % (cfg.a,))
+    return value
 
 
 def paths(spec, pre=""):
@@ -212,6 +224,28 @@ def check_schema(ctx, spec, only, bottom_up=False):
 
     schema = build(spec, bottom_up=bottom_up)
     ctx.states += 1
+    env_set = []
+    if bottom_up == "explicit-env":
+        # every environment-bound scalar field finds its variable set (to a valid value): assignment by any route still wins
+        import cincoconfig as _cc
+        wanted = {}
+        for _p, _o, _f in _cc.get_all_fields(schema):
+            kind_ = dict(paths(spec)).get(_p)
+            if isinstance(_f, _cc.Field) and isinstance(_f.env, str) and _f.env:
+                wanted.setdefault(_f.env, []).append(("yes" if kind_ == "Bool" else CMD_VALUE[kind_][0]) if (kind_ in CMD_VALUE or kind_ == "Bool") else None)
+        for name, vals in wanted.items():
+            if len(vals) == 1 and vals[0] is not None:      # (two fields that derive the same name are left alone)
+                os.environ[name] = vals[0]
+                env_set.append(name)
+    try:
+        return _check_schema_body(ctx, spec, only, bottom_up, schema, ref_paths, fpb, bad)
+    finally:
+        for name in env_set:
+            os.environ.pop(name, None)
+
+
+def _check_schema_body(ctx, spec, only, bottom_up, schema, ref_paths, fpb, bad):
+    import cincoconfig as cc
     # ---- naming routes --------------------------------------------------------------------
     try:
         enum = cc.get_all_fields(schema)
